@@ -60,6 +60,10 @@ def opstr(case):
 # C11 also runs the histories with one constant value for every write: then a write that repeats the value
 # the global currently has is exercised, and reads still tell defined from undefined)
 VALFN = [lambda j: 'v%d' % j]
+# C11, third pass (after seeded change C11d): integer values, typed writes (`set int n=`, `n = 105`, `-> set int n`) and
+# reads in value context (`${ $n + 0 }`): the expression evaluator reads variables through Variables.GetValue, a
+# different look-up path from the string interpolation of `out "$n"`
+NUMERIC = [False]
 
 
 class Renderer:
@@ -89,6 +93,14 @@ class Renderer:
         if k in ('set', 'gset'):
             form = self.rng.choice(SET_FORMS)
             self.forms.append(form)
+            if NUMERIC[0]:
+                if k == 'set':
+                    return {'expr': '%s = %s' % (self.var(n), v),
+                            'set': 'set int %s=%s' % (self.var(n), v),
+                            'pipe': 'out %s -> set int %s' % (v, self.var(n))}[form]
+                return {'expr': '$GLOBAL.%s = %s' % (self.var(n), v),
+                        'set': 'global int %s=%s' % (self.var(n), v),
+                        'pipe': 'out %s -> global int %s' % (v, self.var(n))}[form]
             if k == 'set':
                 return {'expr': '%s = "%s"' % (self.var(n), v),
                         'set': 'set %s=%s' % (self.var(n), v),
@@ -116,7 +128,10 @@ class Renderer:
     # -- the observation group after operation i
     def observe(self, i):
         out = []
-        for n in self.names:
+        for n in (self.names if NUMERIC[0] else []):
+            out.append('out "%d:r.%s=${ $%s + 0 }" || out "%d:r.%s=U"' % (i, n, self.var(n), i, n))
+            out.append('out "%d:g.%s=${ $GLOBAL.%s + 0 }" || out "%d:g.%s=U"' % (i, n, self.var(n), i, n))
+        for n in ([] if NUMERIC[0] else self.names):
             out.append('out "%d:r.%s=$%s" || out "%d:r.%s=U"' % (i, n, self.var(n), i, n))
             out.append('out "%d:g.%s=$GLOBAL.%s" || out "%d:g.%s=U"' % (i, n, self.var(n), i, n))
         for o in self.opts:
